@@ -151,7 +151,10 @@ fn check_admin(ctx: &Ctx, w: &World, m: &M) -> Option<String> {
 }
 
 fn setup(treasury: bool) -> (Ctx, World) {
-    let cfg = Cfg::default_cfg();
+    let mut cfg = Cfg::default_cfg();
+    // (shorter than the seven-day lock: the lock does not depend on any other configured period)
+    cfg.unbonding = 3 * 24 * 3600;
+    cfg.batch_period = 3600;
     let sc = Sc::new(&cfg).expect("instantiate");
     let who = [sc.admin.clone(), sc.users[0].clone(), sc.users[1].clone(), sc.users[2].clone()];
     let contract = if treasury { sc.treasury.clone().unwrap() } else { sc.q.clone() };
